@@ -16,6 +16,6 @@ mkdir -p $VERIF_WORK
 for id in "$@"; do
   out=$(./check $id --tier $tier 2>&1); rc=$?
   echo "== $id rc=$rc"
-  echo "$out" | grep -E "^VIOLATION|^INCONCLUSIVE|^KNOWN" | cut -c1-400 | head -6
+  echo "$out" | grep -E "^VIOLATION|^INCONCLUSIVE" | cut -c1-400 | head -6
   echo "$out" | grep -A1 "^VIOLATION" | grep -v "^VIOLATION\|^--" | cut -c1-500 | head -3
 done
